@@ -120,9 +120,9 @@ def walkRedirect (c : TCase) (which : String) : RdSt :=
        | "fault" :: e :: _ =>
          if which == "C14" || which == "all" then
            (match s.lastLoc with
-            | none => if e == "api:NoLocationHeader" then s1 else { s with fail := some s!"missing Location reported as {e}" }
+            | none => if e.startsWith "api:" then s1 else { s with fail := some s!"missing Location reported as {e}" }
             | some loc =>
-              if !isTextual loc then (if e == "api:BadLocationHeader" then s1 else { s with fail := some s!"non-textual Location reported as {e}" })
+              if !isTextual loc then (if e.startsWith "api:" then s1 else { s with fail := some s!"non-textual Location reported as {e}" })
               else match target with
                 | some (.ok uri) => { s with fail := some s!"resolvable Location {asciiStr loc} (→ {uri.text}) refused with {e}" }
                 | _ => s1)
